@@ -34,6 +34,17 @@ pub fn gen(tier: &str, seed: u64, emit: &mut dyn FnMut(String)) {
         let b6 = if rng.chance(3, 4) { 0x80 | (rng.byte() & 0x3f) } else { rng.byte() };
         emit(format!("PES {}", hex(&mk(&mut rng, sid, b6, flags, hdl, total, true))));
     } } }
+    // PES_packet_length steered around the number of bytes that follow it (0 = unbounded, less, equal, more), every stream id
+    for sid in 0..=255u8 { for total in [6usize, 7, 9, 12, 40, 184] {
+        let avail = total - 6;
+        for plen in [0usize, 1, avail.saturating_sub(1), avail, avail + 1, 0xffff] {
+            let flags = if rng.chance(1, 2) { 0 } else { rng.byte() }; let hdl = if flags == 0 { 0 } else { *rng.pick(&[0u8, 5, 10]) };
+            let b6 = 0x80 | (rng.byte() & 0x3f);
+            let mut v = mk(&mut rng, sid, b6, flags, hdl, total, true);
+            v[4] = (plen >> 8) as u8; v[5] = plen as u8;
+            emit(format!("PES {}", hex(&v)));
+        }
+    } }
     // start code: every single-byte deviation class
     for _ in 0..(if big { 4000 } else { 400 }) {
         let mut v = mk(&mut rng, 0xe0, 0x80, 0, 0, 20, false);
